@@ -77,11 +77,12 @@ LParamPool == << <<A("cfg", "any()")>>,
                  <<A("cfg", "all()"), A("allow", "unused")>> >>
 Pick(pool, c) == IF c = 0 THEN <<>> ELSE pool[c]
 PtItem(mac, c) ==      \* c: choice per site <<item, handler, helper, handler param, helper param>>
-    LET handler == [H("foo", "exec", <<[P("x", "u32") EXCEPT !.attrs = Pick(HParamPool, c[4])], P("y", "String")>>) EXCEPT
-                       !.attrs = Pick(HandlerPool, c[2]) \o <<A("sv::msg", "exec")>>, !.vis = "pub"]
+    LET nested == "fn inner(#[cfg(all())] w: u8, #[allow(unused_variables)] v: u8) -> u8 { w } struct In; impl In { fn m(&self, #[cfg(all())] q: u8) {} } todo!()"
+        handler == [H("foo", "exec", <<[P("x", "u32") EXCEPT !.attrs = Pick(HParamPool, c[4])], P("y", "String")>>) EXCEPT
+                       !.attrs = Pick(HandlerPool, c[2]) \o <<A("sv::msg", "exec")>>, !.vis = "pub", !.body = nested]
         helper == [name |-> "helper", vis |-> "pub(crate)", attrs |-> Pick(HelperPool, c[3]), kind |-> "", ctx |-> "",
                    params |-> <<[P("z", "u32") EXCEPT !.attrs = Pick(LParamPool, c[5])]>>, ret |-> "u32",
-                   body |-> "7", retm |-> <<>>, ctxattr |-> ""]
+                   body |-> "fn inner2(#[cfg(all())] w: u32) -> u32 { w } inner2(7)", retm |-> <<>>, ctxattr |-> ""]
         id == "P" \o (IF mac = "contract" THEN "c" ELSE IF mac = "interface" THEN "i" ELSE "e")
                   \o ToString(c[1]) \o ToString(c[2]) \o ToString(c[3]) \o ToString(c[4]) \o ToString(c[5])
     IN IF mac = "interface"
@@ -89,7 +90,7 @@ PtItem(mac, c) ==      \* c: choice per site <<item, handler, helper, handler pa
                !.attrs = SelectSeq(Pick(ItemPool, c[1]), LAMBDA a : a.p \notin {"sv::error", "sv::messages"})
                          \o <<A("sv::custom", "msg = Empty, query = Empty")>>,
                !.self_ty = "Iface",
-               !.members = << [handler EXCEPT !.vis = "", !.body = ""],
+               !.members = << [handler EXCEPT !.vis = "", !.body = IF c[2] = 1 THEN nested ELSE ""],
                               [helper EXCEPT !.vis = "", !.body = IF c[3] = 1 THEN "7" ELSE ""] >>]
        ELSE [BaseItem(id, "pt", mac) EXCEPT
                !.attrs = Pick(ItemPool, c[1]),
@@ -110,7 +111,9 @@ FwSites ==      \* every site a marker can be forwarded to
 WithForward(members, f, mk) ==
     [i \in 1..Len(members) |->
         IF f.site = "variant" /\ members[i].name = f.method
-        THEN [members[i] EXCEPT !.attrs = @ \o <<A("sv::attr", mk.p \o " " \o mk.t)>>]
+        THEN \* the first marker's sv::attr is written above the handler's sv::msg, the second one below it
+             [members[i] EXCEPT !.attrs = IF mk = Marker(1) THEN <<A("sv::attr", mk.p \o " " \o mk.t)>> \o @
+                                          ELSE @ \o <<A("sv::attr", mk.p \o " " \o mk.t)>>]
         ELSE IF f.site = "field" /\ members[i].name = f.method
         THEN [members[i] EXCEPT !.params = [x \in 1..Len(@) |-> IF @[x].n = f.param THEN [@[x] EXCEPT !.attrs = <<mk>>] ELSE @[x]]]
         ELSE members[i]]
